@@ -7,7 +7,7 @@ import ast
 from ..core import astutil as A
 from ..core.index import AnalysisError, ClassInfo, external_init_signature, external_signature
 from ..selftest import M
-from .common import (may_conds, BASE_OUTLINE, OTF_OUTLINE, T, attr_stores, calls_named, compiler_field_classes, conds, every_origin, facts, key,
+from .common import (is_early_exit_guard, may_conds, BASE_OUTLINE, OTF_OUTLINE, T, attr_stores, calls_named, compiler_field_classes, conds, every_origin, facts, key,
                      need, subscript_stores, where)
 from .rounding import check_banned_coercions, check_helper, flows_through_otround, is_otround
 
@@ -28,6 +28,7 @@ def run(prog, chk):
     chk.decided += ["components are only resolved into contours by util.decomposeCompositeGlyph; no other decomposing pen / component removal outside reviewed functions (R01.7, shared with C15)",
                     "the outline compilers generate a glyph only for a name the glyph set lacks: a source glyph is never replaced by a generated one (R01.8, shared with C02)",
                     "a glyph's width / height is only assigned at the reviewed sites: the compiled advance is the source glyph's own (R01.9)"]
+    chk.decided += ["the CFF font matrix scales charstring units by 1 / unitsPerEm of the same font info (on both diagonal entries, nothing else), on every path of setupTable_CFF (R01.11)"]
     chk.decided += ["the caller's outline options reach the outline compiler as given: compileOutlines only overrides the reviewed entries of the forwarded option table "
                     "(sparse-master tables, optimizeCFF / glyphDataFormat / roundCoordinates / dropImpliedOnCurves of interpolatable masters) and no compiler assigns an outline option to itself (R01.10)"]
     chk.not_decided += ["that drawn coordinates equal the source (fontTools pens)", "composition of nested transforms", "semantics of roundTolerance inside T2CharStringPen"]
@@ -42,6 +43,7 @@ def run(prog, chk):
     chk.guard(check_only_missing_glyphs_added, prog, chk, "R01.8")
     chk.guard(r019, prog, chk)
     chk.guard(check_outline_option_overrides, prog, chk, "R01.10")
+    chk.guard(r0111, prog, chk)
 
 
 # ----------------------------------------------------------------------------- R01.1
@@ -118,9 +120,10 @@ def r012(prog, chk, rule):
                        "loses the reversal of mirrored components further down)")
         for nm in ("include", "decomposeNested"):
             kw = A.kwarg(c, nm)
-            okk = kw is not None and isinstance(kw, ast.Name) and kw.id == nm
+            okk = kw is not None and isinstance(kw, ast.Name) and kw.id == nm and all(d_.kind == "param" for d_ in prog.reaching(d, kw.id, kw))
             chk.ob(rule, f"decomposeCompositeGlyph forwards {nm}", okk, where(d, c), detail=f"{nm}={nm}",
-                   message=f"decomposeCompositeGlyph does not forward its {nm} argument to the pen")
+                   message=f"decomposeCompositeGlyph does not forward its {nm} argument to the pen as the caller gave it (the pen applies it at every nesting level: a set narrowed to "
+                           f"the glyph's direct references no longer selects a listed glyph nested inside another listed glyph, which is then left as a dangling component)")
         # the pen writes into the glyph being decomposed, resolving from the given glyph set
         ok = len(c.args) >= 2 and T(c.args[0]) == f"{names[0]}.getPointPen()" and T(c.args[1]) == names[1]
         chk.ob(rule, "decomposing pen draws into the same glyph, resolving from the glyph set", ok, where(d, c), detail=T(c, 70),
@@ -439,7 +442,40 @@ def check_outline_option_overrides(prog, chk, rule):
     chk.minimum(rule, 10)
 
 
+# ----------------------------------------------------------------------------- R01.11
+def r0111(prog, chk):
+    """Charstring coordinates are font units; without FontMatrix = 1 / unitsPerEm a CFF rasteriser assumes 1000 units per em
+    and draws every glyph (and its advance) scaled by unitsPerEm / 1000."""
+    ix = prog.ix
+    f = ix.get_method(OTF_OUTLINE, "setupTable_CFF", own=True)
+    sts = [(s_, t, v) for s_, t, v in attr_stores(f, "FontMatrix")]
+    ok = len(sts) == 1 and isinstance(sts[0][2], (ast.List, ast.Tuple)) and len(sts[0][2].elts) == 6
+    detail = T(sts[0][2], 80) if sts else "no FontMatrix store"
+    if ok:
+        s_, t, v = sts[0]
+        def inv_upm(e):
+            if not (isinstance(e, ast.BinOp) and isinstance(e.op, ast.Div) and isinstance(e.left, ast.Constant) and e.left.value in (1, 1.0)):
+                return False
+            okd, _ = every_origin(prog, f, e.right, lambda x, ff: isinstance(x, ast.Call) and A.callee_name(x) == "getAttrWithFallback" and len(x.args) == 2 and A.is_const(x.args[1], "unitsPerEm")
+                                  or (isinstance(x, ast.Call) and A.callee_name(x) in ("otRound", "int", "float", "round") and len(x.args) == 1 and isinstance(x.args[0], ast.Call)
+                                      and A.callee_name(x.args[0]) == "getAttrWithFallback" and A.is_const(x.args[0].args[1], "unitsPerEm")), allow_const=False)
+            return okd
+        e = v.elts
+        ok = inv_upm(e[0]) and inv_upm(e[3]) and all(A.is_const(x, 0) for x in (e[1], e[2], e[4], e[5]))
+        # on every path: the store is not conditional
+        ok = ok and not [g for g in may_conds(prog, f, s_) if g.kind in ("if", "boolop", "ifexp", "while", "for") and not is_early_exit_guard(prog, f, g)]
+    chk.ob("R01.11", f"{f.short}|FontMatrix = [1 / unitsPerEm, 0, 0, 1 / unitsPerEm, 0, 0], unconditionally", ok, where(f, sts[0][0]) if sts else where(f), detail=detail,
+           message=f"{f.short}: the CFF font matrix is not 1 / unitsPerEm on both axes on every path (`{detail}`): a font whose unitsPerEm is not 1000 is drawn at the wrong size")
+    chk.minimum("R01.11", 1)
+
+
 MUTANTS = [
+    M("include narrowed to the direct references before it reaches the pen (seeded C13j)", "ufo2ft/util.py", "decomposeCompositeGlyph",
+      "if len(glyph.components) == 0:\n    return", "if len(glyph.components) == 0:\n    return\nif include is not None:\n    include = {c.baseGlyph for c in glyph.components if c.baseGlyph in include}", rule="R01.2"),
+    M("CFF font matrix left at the 1000-unit default (mutation scan 3, k=41)", "ufo2ft/outlineCompiler.py", "OutlineOTFCompiler.setupTable_CFF",
+      "topDict.FontMatrix = [1.0 / unitsPerEm, 0, 0, 1.0 / unitsPerEm, 0, 0]", "pass", rule="R01.11"),
+    M("CFF font matrix only set for non-default unitsPerEm, with the wrong test", "ufo2ft/outlineCompiler.py", "OutlineOTFCompiler.setupTable_CFF",
+      "topDict.FontMatrix = [1.0 / unitsPerEm, 0, 0, 1.0 / unitsPerEm, 0, 0]", "if unitsPerEm > 1000:\n    topDict.FontMatrix = [1.0 / unitsPerEm, 0, 0, 1.0 / unitsPerEm, 0, 0]", rule="R01.11"),
     M("non-default CFF masters ignore the caller's roundTolerance (seeded C01i)", "ufo2ft/_compilers/interpolatableOTFCompiler.py", "InterpolatableOTFCompiler.compileOutlines",
       "kwargs['optimizeCFF'] = CFFOptimization.NONE", "kwargs['optimizeCFF'] = CFFOptimization.NONE\nif not self.compilingVFDefaultSource:\n    kwargs['roundTolerance'] = None", rule="R01.10"),
     M("static OTF compiler drops the tolerance from the option table", "ufo2ft/_compilers/baseCompiler.py", "BaseCompiler.compileOutlines",
